@@ -64,7 +64,6 @@ PROPS = {
                  'propagate_annotations (hash map + closures)', 'both ap-change solvers', 'core_libfunc_ap_change.rs tables'],
     ),
     'C14': dict(
-        claimed=False,
         technique='Verus overflow/index/unwrap obligations on lifted real functions + Kani bit-precise harnesses; native bounded stand-ins',
         level_text='Panic-freedom (no overflow, no out-of-range index, no failed unwrap, bounded allocation) of each listed unit for all arguments under stated preconditions.',
         level_note='Per-unit claim, not whole-pipeline. Preconditions cite the upstream validator that establishes them.',
@@ -75,7 +74,6 @@ PROPS = {
                  'CasmContractClass::from_contract_class'],
     ),
     'C04': dict(
-        claimed=False,
         technique='Kani function-contract proofs on the real cost/wallet/builder-step functions; Verus composition lemmas',
         level_text='Deductive proof of the checker side of gas accounting: cost price is linear with the published table, the wallet update is exact and rejects negatives, merges require equal wallets, builder step counting is exact.',
         level_note='Trusted: A0, tools. Bounded: wallet key universe (2 tokens), builder var maps (<= 2 vars). Solvers and per-libfunc cost tables are outside.',
@@ -84,7 +82,6 @@ PROPS = {
         outside=['gas solvers (compute_costs.rs, eq-solver)', 'core_libfunc_cost_base.rs tables', "the 'Wrong costs for' comparison inside build_from_casm_builder_ex", 'runner gas accounting'],
     ),
     'C15': dict(
-        claimed=False,
         technique='Verus contracts on lifted EditState::take_vars/put_vars with an abstract map view; Kani harnesses for type/consistency checks and drop/dup signatures',
         level_text='Deductive proof that the acceptance primitives (take exactly once, never override, types match, merges consistent, drop/dup only when allowed) are right for every map and id list.',
         level_note='Trusted: A0, tools, assumed indexmap specs (swap_remove/insert as a finite map). compile()\'s own control flow and ProgramRegistry are outside.',
@@ -94,7 +91,6 @@ PROPS = {
                  'ProgramAnnotations::test_references_consistency (per-variable core test_var_consistency is proved)'],
     ),
     'C18': dict(
-        claimed=False,
         technique='Kani inverse-pair harnesses on the real Felt252Serde element codecs; native bounded stand-ins for BigInt codecs; Verus contract on CanonicalReplacer',
         level_text='Deductive proof that every felt252 element codec within reach is an inverse pair (deserialize(serialize(x)) == x, exact consumption, frame on the output vector).',
         level_note='Element codecs only; Program::{serialize,deserialize} loops, text/JSON serialisations and id replacement of whole programs are outside.',
@@ -103,7 +99,6 @@ PROPS = {
         outside=['generic_id_serde! (string ids, keccak table)', 'compress/decompress round trip', 'Program::{serialize,deserialize} loops', 'fmt.rs / LALRPOP grammar', 'JSON (serde derive)'],
     ),
     'C19': dict(
-        claimed=False,
         technique='Verus contracts with loop invariants on lifted contract_segmentation functions',
         level_text='Deductive proof of the segmentation conjunct: segment lengths are positive and add up to the bytecode length; branch targets stay inside their function.',
         level_note='Only the segmentation conjunct of C19; the other seven conjuncts live in closures of a 250-line function that needs a full compile.',
